@@ -104,7 +104,7 @@ class C19(E1Prop):
     WEIGHTS = {'open_pr': 6, 'ci': 3, 'ci_green_all': 4, 'deliver': 12,
                'deliver_all': 2, 'api': 0.5, 'commit': 2, 'comment': 1.5,
                'wcommit': 0.3, 'restart': 0.2, 'amend': 0.3, 'rebase': 0.3,
-               'decline': 1.2, 'dup': 2.5, 'approve': 0.5}
+               'decline': 1.2, 'dup': 2.5, 'approve': 0.5, 'delete_w': 1.0}
     GEN_KW = {'ci_green_bias': 0.8, 'max_prs': 3, 'adversarial': 0.35,
               'api_jobs': ['eval_pr', 'rebuild_queues'],
               'comment_texts': ['@%s create_pull_requests' % ROBOT,
